@@ -47,7 +47,17 @@ const VIEWS: [ViewDef; 10] = [
 fn strategy(mk: fn(usize) -> Spec) -> impl Fn(Tier) -> BoxedStrategy<Case> + Send + Sync {
     move |tier: Tier| {
         (gen::window(tier, 1, 40, 300), gen::dyadic_scale_wide())
-            .prop_flat_map(move |(n, sc)| gen::stream(StreamCfg::new(n).scale(sc).len(0, 5 * n + 8)).prop_map(move |xs| Case::of(mk(n), xs)))
+            .prop_flat_map(move |(n, sc)| gen::stream_nz(StreamCfg::new(n).scale(sc).len(0, 5 * n + 8)).prop_map(move |xs| Case::of(mk(n), xs)))
+            .boxed()
+    }
+}
+/// tiny units (f64 leg only): every value of a 1/8-grid stream (|k| <= 2048) times 2^e2, e2 = -150 (far below epsilon, squares
+/// still normal) or, for the views that neither square nor take roots, -1065 (the inputs are subnormal numbers)
+fn strategy_tiny(vd: &'static ViewDef) -> impl Fn(Tier) -> BoxedStrategy<Case> + Send + Sync {
+    move |tier: Tier| {
+        let deep = !matches!(vd.kind, Kind::Std | Kind::StdRatio);
+        (gen::window(tier, 1, 24, 100), prop_oneof![Just(-150i32), Just(if deep { -1065i32 } else { -400i32 })])
+            .prop_flat_map(move |(n, e2)| gen::stream_nz(StreamCfg::new(n).scale(Rat(1, 8)).kmax(2048).len(0, 5 * n + 8)).prop_map(move |xs| Case { e2, ..Case::of((vd.mk)(n), xs) }))
             .boxed()
     }
 }
@@ -125,9 +135,12 @@ fn check_f64(vd: &'static ViewDef) -> impl Fn(&Case) -> Verdict + Send + Sync {
     move |case: &Case| {
         let spec = case.spec();
         let n = spec.own_windows()[0];
-        let h = bigs(&case.xs);
-        let xs = f64s(&case.xs);
-        let id = format!("C02/{}/{}/f64", vd.name, if case.xs.len() >= 300 { "long" } else { "definition" });
+        let h = bigs_e(&case.xs, case.e2);
+        let xs = f64s_e(&case.xs, case.e2);
+        // tolerances are relative to the largest input seen so far plus one grid unit (never an absolute floor: the
+        // definitions are homogeneous in the unit), plus two subnormal ulps for quotients formed in the subnormal range
+        let unit = grid_unit(&case.xs, case.e2) + f(1e-323);
+        let id = format!("C02/{}/{}/f64", vd.name, if case.e2 != 0 { "tiny_unit" } else if case.xs.len() >= 300 { "long" } else { "definition" });
         let maxabs = running_max_abs(&h);
         let mut wants = (vd.reference)(&h, n);
         if matches!(vd.kind, Kind::StdRatio) {
@@ -149,7 +162,7 @@ fn check_f64(vd: &'static ViewDef) -> impl Fn(&Case) -> Verdict + Send + Sync {
             v.update(*x);
             outs.push(v.last());
             if vd.name == "WelfordOnline" {
-                let mag = &maxabs[t] + R::one();
+                let mag = &maxabs[t] + &unit;
                 let wm = refs::mean(refs::window(&h, t, n));
                 let wv = refs::sample_var(refs::window(&h, t, n));
                 let m = v.welford_mean().unwrap();
@@ -163,9 +176,9 @@ fn check_f64(vd: &'static ViewDef) -> impl Fn(&Case) -> Verdict + Send + Sync {
             }
         }
         let tol = |t: usize, r: &R| -> R {
-            let mag = &maxabs[t] + R::one();
+            let mag = &maxabs[t] + &unit;
             match vd.kind {
-                Kind::Value => f(1e-9) * mag,
+                Kind::Value => f(1e-9) * mag + f(1e-323),
                 Kind::Std => f(3.3e-5) * mag, // sqrt of the 1e-9*mag^2 variance tolerance
                 Kind::StdRatio => f(1e-6) * (R::one() + r.abs()),
                 Kind::Ratio => f(1e-9) * (R::one() + r.abs()),
@@ -184,7 +197,7 @@ fn check_f64(vd: &'static ViewDef) -> impl Fn(&Case) -> Verdict + Send + Sync {
                 // does the same case satisfy the oracle in exact arithmetic? (numerical vs algorithmic failure)
                 q::arena_reset();
                 let exact_ok = matches!(check_q(vd)(case), Verdict::Pass { .. });
-                Verdict::fail(format!("{id}|{}{}", m.aspect, if exact_ok { "|exact_ok" } else { "" }), fail_msg(spec, "f64", &case.xs, &m))
+                Verdict::fail(format!("{id}|{}{}", m.aspect, if exact_ok { "|exact_ok" } else { "" }), format!("{}{}", fail_msg(spec, "f64", &case.xs, &m), if case.e2 != 0 { format!(" (every input times 2^{})", case.e2) } else { String::new() }))
             }
         }
     }
@@ -259,12 +272,24 @@ fn strategy_ultra(mk: fn(usize) -> Spec) -> impl Fn(Tier) -> BoxedStrategy<Case>
     }
 }
 
+/// fz_single: view, N in 1..40, scalar (Q one time in three), stream of up to 400 values
+pub fn fuzz_decode(u: &mut arbitrary::Unstructured) -> Option<(String, Case)> {
+    let vd = &VIEWS[u.int_in_range(0..=VIEWS.len() - 1).ok()?];
+    let n = 1 + u.int_in_range(0..=39usize).ok()?;
+    let exact = u.int_in_range(0..=2u8).ok()? == 0;
+    let xs = crate::fuzzdec::stream(u, false, 160);
+    Some((format!("C02/{}/definition/{}", vd.name, if exact { "Q" } else { "f64" }), Case::of((vd.mk)(n), xs)))
+}
+
 pub fn clauses() -> Vec<Clause> {
     let mut v = vec![];
     for vd in VIEWS.iter() {
         let rule = "N in 1..40 (thorough 1..300) with boundary bias, dyadic grid 2^-e, grammar stream of 0..5N+8 values (ties, zeros, negatives, flats, spikes, runs, shorter than N); compared with the batch definition at every step. Non-trivial: at least N+2 evictions and a non-constant stream; labels record evicts / tie / zero / negative / flat_window / extremum_evicted / shorter_than_N.";
         v.push(Clause::generated("C02", format!("C02/{}/definition/Q", vd.name), rule, 1500, 40_000, strategy(vd.mk), check_q(vd)).with_shard(150));
         v.push(Clause::generated("C02", format!("C02/{}/definition/f64", vd.name), rule, 1500, 40_000, strategy(vd.mk), check_f64(vd)).with_shard(300));
+        if !matches!(vd.name, "Vst") {
+            v.push(Clause::generated("C02", format!("C02/{}/tiny_unit/f64", vd.name), "tiny units: N in 1..24 (thorough ..100), grammar stream on the 1/8 grid (|k| <= 2048, zeros partly written as -0.0) with every value multiplied by 2^-150 or, for the views that neither square nor take roots, 2^-1065 (subnormal inputs; 2^-400 otherwise); f64 run against the batch definition, tolerances relative to the largest input (plus two subnormal ulps). The definitions are homogeneous in the unit: an absolute threshold or a test such as is_normal() in a view shows here.", 300, 8_000, strategy_tiny(vd), check_f64(vd)).with_shard(100));
+        }
         let lrule = "long histories: N in 1..8, 300..1200 values (thorough ..5000) built by tiling a grammar stream (every other tile reversed, tiles shifted); same oracle at every step. Reaches defects that need hundreds of updates (periodic re-synchronisation, counters, wrapped buffers).";
         v.push(Clause::generated("C02", format!("C02/{}/long/Q", vd.name), lrule, 40, 1000, strategy_long(vd.mk), check_q(vd)).with_shard(8));
         v.push(Clause::generated("C02", format!("C02/{}/long/f64", vd.name), lrule, 60, 2000, strategy_long(vd.mk), check_f64(vd)).with_shard(12));
